@@ -1,5 +1,5 @@
 #!/usr/bin/env python3
-"""repin_literals.py OLD_GENERATED_DIR NEW_GENERATED_DIR LEAN_FILE...
+"""repin_literals.py [--literals] OLD_GENERATED_DIR NEW_GENERATED_DIR LEAN_FILE...
 
 After an INTENDED change of what a fact extractor prints (e.g. a new normal form of skeleton strings), the
 string literals pinned in the hand-written Lean files have to follow. For every definition whose text differs
@@ -65,7 +65,9 @@ def structural(src, ns, name, newval):
     return src, n
 
 def main():
-    old, new, files = sys.argv[1], sys.argv[2], sys.argv[3:]
+    args = [a for a in sys.argv[1:] if a != "--literals"]
+    literals = "--literals" in sys.argv[1:]   # also map changed literals one by one (only for files that hold nothing but pins!)
+    old, new, files = args[0], args[1], args[2:]
     # pass 1: pins of the shape `FactsCxx.name = <literal | list | tuple>` are replaced as a whole
     done = set()
     texts = {path: open(path).read() for path in files}
@@ -85,7 +87,7 @@ def main():
         if texts[path] != open(path).read():
             open(path, "w").write(texts[path])
     mapping = {}
-    for f in sorted(os.listdir(new)):
+    for f in (sorted(os.listdir(new)) if literals else []):
         po, pn = os.path.join(old, f), os.path.join(new, f)
         if not os.path.exists(po): continue
         do, dn = defs(po), defs(pn)
